@@ -462,6 +462,20 @@ impl<R: DdsRuntime> DcpsParticipantFactory<R> {
                 )),
                 Err(e) => reply_sender.send(Err(e)),
             },
+            DcpsMail::Publisher(PublisherServiceMail::DeleteContainedEntities {
+                participant_handle,
+                publisher_handle,
+                reply_sender,
+            }) => match self
+                .domain_participant_list
+                .iter_mut()
+                .find(|x| x.get_instance_handle() == &participant_handle)
+                .ok_or(DdsError::AlreadyDeleted)
+            {
+                Ok(p) => reply_sender
+                    .send(p.delete_publisher_contained_entities(&publisher_handle, &self.runtime)),
+                Err(e) => reply_sender.send(Err(e)),
+            },
             DcpsMail::Publisher(PublisherServiceMail::GetDefaultDataWriterQos {
                 participant_handle,
                 publisher_handle,
@@ -767,6 +781,21 @@ impl<R: DdsRuntime> DcpsParticipantFactory<R> {
                     &datareader_handle,
                     &self.runtime,
                 )),
+                Err(e) => reply_sender.send(Err(e)),
+            },
+            DcpsMail::Subscriber(SubscriberServiceMail::DeleteContainedEntities {
+                participant_handle,
+                subscriber_handle,
+                reply_sender,
+            }) => match self
+                .domain_participant_list
+                .iter_mut()
+                .find(|x| x.get_instance_handle() == &participant_handle)
+                .ok_or(DdsError::AlreadyDeleted)
+            {
+                Ok(p) => reply_sender.send(
+                    p.delete_subscriber_contained_entities(&subscriber_handle, &self.runtime),
+                ),
                 Err(e) => reply_sender.send(Err(e)),
             },
             DcpsMail::Subscriber(SubscriberServiceMail::LookupDataReader {
